@@ -90,14 +90,14 @@ def vOverflow (sp : Char → Bool) (extW extH : Str → Rat) (lines : List Str) 
   match fitLoop extH height 0 none lines with
   | (rendered, none) => rendered
   | (rendered, some ov) =>
-    if ov = [] then rendered          -- `if overflow:` is false for the empty string
-    else
-      let ov' : Str :=
-        if extW (ov ++ dots) < maxW then ov ++ dots
-        else
-          let w : Rat := ((maxW - extW dots).floor : Int)
-          (wordWrap sp (fun s => extW s) w [ov]).headD [] ++ dots
-      if rendered = [] then [ov'] else rendered.dropLast ++ [ov']
+    -- `if overflow is not None:` (repaired; before, `if overflow:` skipped an empty overflow line and
+    -- the text was cut without any mark)
+    let ov' : Str :=
+      if extW (ov ++ dots) < maxW then ov ++ dots
+      else
+        let w : Rat := ((maxW - extW dots).floor : Int)
+        (wordWrap sp (fun s => extW s) w (if ov = [] then [] else [ov])).headD [] ++ dots
+    if rendered = [] then [ov'] else rendered.dropLast ++ [ov']
 
 /-- the lines computed by `check_for_horizontal_overflow(text, width, icon_padding, icon_size)` -/
 def hOverflowLines (sp : Char → Bool) (extW : Str → Rat) (lines : List Str) (width iconPadding iconSize : Rat) : List Str :=
